@@ -30,6 +30,8 @@ QUICK = [c for c in c04.QUICK if c[2] is None] + [
     ('orderbook_all_outside', dict(T=3, orders=((-3, -1, 1.0), (5, 7, 1.0))), None, 'B'),
     ('scaled_periodic_base', dict(T=5, base='periodic_contract'), None, 'B'),
     ('scaled_periodic_transport_base', dict(T=5, base='periodic_transport'), None, 'B'),
+    ('scaled_orderbook_last_order_outside', dict(T=3, base='orderbook_last_outside'), None, 'A'),
+    ('scaled_orderbook_first_order_outside', dict(T=3, base='orderbook_first_outside'), None, 'A'),
     ('storage_window_no_simult', dict(T=4, win_s=(2, 4), storage_kw=dict(no_simult_in_out=True)), None, 'A'),
     ('minload_plant_fuel_and_ramps', dict(T=3, fuel=True, ramps=True), None, 'B'),
     ('minload_plant_late_window', dict(T=4, fuel=True, ramps=False, win=(2, 4)), None, 'B'),
@@ -43,7 +45,7 @@ THOROUGH = QUICK + [c for c in c04.THOROUGH if c[2] is None and c not in c04.QUI
     ('contract_storage_mip', dict(T=3, storage_kw=dict(no_simult_in_out=True)), None, 'B'),
     ('contract_storage_msd', dict(T=4, storage_kw=dict(max_store_duration=2)), None, 'B'),
 ]
-SHAPE_OF = dict(c04.SHAPE_OF, minload_plant_fuel_and_ramps='plant_minload', minload_plant_fuel_only='plant_minload', minload_plant_late_window='plant_minload', minload_chp_ramps='plant_minload', storage_window_max_duration='contract_storage', scaled_periodic_base='scaled', scaled_periodic_transport_base='scaled', storage_window_no_simult='contract_storage', plant_window_late='plant', plant_dict_costs='plant', names_collide='names', names_collide_T12='names', plant_win_empty='plant',
+SHAPE_OF = dict(c04.SHAPE_OF, scaled_orderbook_last_order_outside='scaled', scaled_orderbook_first_order_outside='scaled', minload_plant_fuel_and_ramps='plant_minload', minload_plant_fuel_only='plant_minload', minload_plant_late_window='plant_minload', minload_chp_ramps='plant_minload', storage_window_max_duration='contract_storage', scaled_periodic_base='scaled', scaled_periodic_transport_base='scaled', storage_window_no_simult='contract_storage', plant_window_late='plant', plant_dict_costs='plant', names_collide='names', names_collide_T12='names', plant_win_empty='plant',
                 orderbook_all_outside='orderbook', contract_storage_mip='contract_storage',
                 contract_storage_msd='contract_storage')
 GRIDV_QUICK = [('two_node', 'month_d'), ('plant_dict_costs', 'day_d_cet_dst'), ('windows_gap', 'quarter_min'), ('scaled_storage', 'day_h_useast_fall')]
@@ -208,7 +210,7 @@ def run_split(rec, seed, shape, kw, split, level):
             common.crash_candidate(rec, P + '/crash', path, D)
             continue
         sc = path.result
-        ivs = c14.interval_steps(sc.sh.tg, split)
+        ivs = c14.interval_steps(sc.sh.tg, split, sc.sh.portf)
         ok, why = c14.split_mapping_check(sc, sc.sh.tg, ivs)
         nm = P + '/split_mapping'
         rec.obligations.append(dict(name=nm, verdict='unsat' if ok else 'sat', secs=0, form='Q2'))
